@@ -67,6 +67,9 @@ func (mbp *multipartBodyProcessor) ProcessRequest(reader io.Reader, v plugintype
 					return err
 				}
 				defer temp.Close()
+				// Record the temporary file before writing to it: if the copy fails midway the file
+				// still exists and has to be removed when the transaction is closed.
+				filesTmpNamesCol.Add("", temp.Name())
 				sz, err := io.Copy(temp, p)
 				if err != nil {
 					if !errors.Is(err, io.ErrUnexpectedEOF) {
@@ -76,7 +79,6 @@ func (mbp *multipartBodyProcessor) ProcessRequest(reader io.Reader, v plugintype
 					seenUnexpectedEOF = true
 				}
 				size = sz
-				filesTmpNamesCol.Add("", temp.Name())
 			} else {
 				sz, err := io.Copy(io.Discard, p)
 				if err != nil {
